@@ -14,7 +14,6 @@ import (
 	"github.com/opencontainers/image-spec/specs-go"
 	ocispec "github.com/opencontainers/image-spec/specs-go/v1"
 	"oras.land/oras-go/v2/content"
-	"oras.land/oras-go/v2/content/memory"
 	"oras.land/oras-go/v2/internal/verifrt"
 )
 
@@ -215,17 +214,6 @@ func reachable(nodes []vnode, root int) []bool {
 	}
 	walk(root)
 	return r
-}
-
-func newSource(nodes []vnode) *memory.Store {
-	src := memory.New()
-	for i := range nodes {
-		err := src.Push(context.Background(), nodes[i].desc, bytes.NewReader(nodes[i].bytes))
-		if err != nil && !errors.Is(err, errAlreadyExists()) {
-			panic(err)
-		}
-	}
-	return src
 }
 
 // ---- instrumented destination ----
